@@ -167,23 +167,30 @@ def run(repo):
 
 
 def _delegates(fi):
-    """Every return value mentions `self` only as self.to_affine() / self.<op>(...) / self - other
-    followed by a comparison method, or as super().__op__ on Bounds construction for numbers."""
+    """Every return value uses `self` only as the receiver of to_affine() / of another method, as an operand of
+    an arithmetic or comparison operator (which dispatches to another of the wrapper's operators, each of them
+    checked here), through super(), or builds a Bounds object on the variable's own indices."""
     rets = [n.value for n in walk_no_nested(fi.node) if isinstance(n, ast.Return) and n.value is not None]
     if not rets:
         return False
     for r in rets:
-        ok_here = False
-        txt = ntext(r)
-        if 'self.to_affine()' in txt:
-            ok_here = True
-        elif txt.startswith('Bounds('):
-            ok_here = True          # numeric right-hand side: a bound object on the variable's own indices
-        elif txt.startswith(('(self - other).', '(other - self).', 'self.__add__(', 'self.to_affine().')):
-            ok_here = True
-        elif isinstance(r, ast.Call) and isinstance(r.func, ast.Attribute) and \
-                ntext(r.func.value) in ('self', 'super()'):
-            ok_here = True
-        if not ok_here:
+        if ntext(r).startswith('Bounds('):
+            continue            # numeric right-hand side: a bound object on the variable's own indices
+        par = {}
+        for n in ast.walk(r):
+            for c in ast.iter_child_nodes(n):
+                par[id(c)] = n
+        selfs = [n for n in ast.walk(r) if isinstance(n, ast.Name) and n.id == 'self']
+        supers = [n for n in ast.walk(r) if isinstance(n, ast.Call) and ntext(n.func) == 'super']
+        if not selfs and not supers:
+            return False
+        for n in selfs:
+            p = par.get(id(n))
+            if isinstance(p, (ast.BinOp, ast.UnaryOp, ast.Compare)):
+                continue
+            if isinstance(p, ast.Attribute) and isinstance(par.get(id(p)), ast.Call) and par[id(p)].func is p:
+                continue        # self.to_affine() / self.__add__(..)
+            if isinstance(p, ast.Call) and ntext(p.func) == 'super':
+                continue
             return False
     return True
